@@ -15,7 +15,8 @@ Msgs(s) ==
   \cup [type : {"AddRemoteTokenMessenger"}, from : {"a1"}, d : {"d1"}, addr : {M1}]
   \cup [type : {"RemoveRemoteTokenMessenger"}, from : {"a1"}, d : {"d1", "d2"}]
   \cup [type : {"SetMaxBurnAmountPerMessage"}, from : {"a1"}, denom : {MINT, "MINT_UP", "OTHER"}, amt : {3}]
-  \cup {Recv(s, "d1", 0), Recv(s, "d2", 0), Recv(s, "d2", 5), Recv(s, "d1", 1000)}
+  \cup {Recv(s, "d1", 0), Recv(s, "d2", 0), Recv(s, "d5", 5), Recv(s, "d1", 1000)}
+  \cup [type : {"AddRemoteTokenMessenger"}, from : {"a1"}, d : {"d4"}, addr : {M2}]
 Depth == IF Thorough THEN 4 ELSE 3
 
 Init == PInit(Start)
